@@ -62,6 +62,39 @@ theorem c10_decode_total (bytes : Bytes) :
     rintro rfl
     exact h hd
 
+/-- What the decoder returns is a legitimate `IndexMap`: the names of a decoded snapshot are
+pairwise distinct (a repeated name in the file overwrites, as `IndexMap::insert` does). -/
+theorem c10_decode_keys_distinct (bytes : Bytes) (s : Snapshot)
+    (h : decodeSnapshot bytes = .ok s) : s.keysNodup = true := by
+  unfold decodeSnapshot at h
+  cases hd : (decodeSnapshotW bytes).out with
+  | error e => simp [hd] at h
+  | ok p =>
+    obtain ⟨s', r⟩ := p
+    simp only [hd, Except.ok.injEq] at h
+    subst h
+    unfold decodeSnapshotW at hd
+    cases h1 : (readBytes 4 bytes).out with
+    | error e => rw [W.bind_out_error h1] at hd; cases hd
+    | ok p1 =>
+      obtain ⟨m, r1⟩ := p1
+      rw [W.bind_out_ok h1] at hd
+      split at hd
+      · cases hd
+      · cases h2 : (readLe 2 r1).out with
+        | error e => rw [W.bind_out_error h2] at hd; cases hd
+        | ok p2 =>
+          obtain ⟨v, r2⟩ := p2
+          rw [W.bind_out_ok h2] at hd
+          split at hd
+          · cases hd
+          · cases h3 : (readLe 4 r2).out with
+            | error e => rw [W.bind_out_error h3] at hd; cases hd
+            | ok p3 =>
+              obtain ⟨cnt, r3⟩ := p3
+              rw [W.bind_out_ok h3] at hd
+              exact decodeFields_keysNodup cnt .nil r3 s' r rfl hd
+
 /-- **Allocation bound.**  Every `Vec::with_capacity` request made while decoding is covered by
 the bytes still unread at that moment (16 per dimension pair, one per element), which are part of
 the input. -/
